@@ -154,6 +154,10 @@ enum Expect {
 fn model(s: &Sig, recv: &Option<Arg>, args: &[Arg]) -> Expect {
     let mut idx = 0usize;
     let mut seen: Vec<MV> = vec![];
+    if s.ftx {
+        // closures taking &FunctionContext report the receiver they can see through `ftx.this`
+        seen.push(MV::Str(format!("ftx.this:{}", recv.as_ref().map(|r| r.val.show()).unwrap_or("none".into()))));
+    }
     for p in s.params.iter() {
         match p {
             P::This(t) | P::ThisOpt(t) => {
@@ -260,8 +264,9 @@ fn part_hosts(run: &mut Run) {
             register(&mut ctx, &log, i, name);
             for style in 0..2 {
                 // in receiver style the This parameter binds the receiver and consumes no argument
-                let n_args = if style == 1 && has_this { n - 1 } else { n };
                 let arg_params: Vec<&P> = if style == 1 && has_this { consuming.iter().filter(|p| !matches!(p, P::This(_) | P::ThisOpt(_))).cloned().collect() } else { consuming.clone() };
+                let n_args = arg_params.len();
+                let _ = n;
                 let matching = |p: &P| -> Arg {
                     match p {
                         P::Pos(k) | P::This(k) | P::ThisOpt(k) => good(*k),
